@@ -212,6 +212,8 @@ Step(st, c) ==
     LET s0 == [st EXCEPT !.msg = "", !.ret = 0]
         s1 == CASE c.k = "e"     -> Edit(s0, c.path, c.force, "ew" \in DOMAIN c /\ c.ew)
                 [] c.k = "w"     -> Write(s0, c.path, c.whole, c.beg, c.end, c.force, FALSE, c.fault)
+                (* ":w !cmd" pipes the text to a command: the buffer, its name, its saved point and the files stay as they are *)
+                [] c.k = "wp"    -> [s0 EXCEPT !.ret = 0, !.msg = "written"]
                 [] c.k \in {"q", "wq", "x", "xa"} -> Quit(s0, c.k, c.force, c.fault)
                 [] c.k = "b"     -> Buffer(s0, c.how, c.n, c.force)
                 [] c.k = "a"     -> EdAppend(s0, c.n)
